@@ -37,6 +37,14 @@ def spVerify1 : List String → String
     | _, _, _, _, _, _ => "bad-op"
   | _ => "bad-op"
 
+/-- `sp-verify2 index filesize leaf64hex proof root` → verdict of the v2 check -/
+def spVerify2 : List String → String
+  | [i, fs, l, p, r] => match i.toNat?, fs.toNat?, unhex l, hashList p, hash1 r with
+    | some i, some fs, some l, some p, some r =>
+      if l.size ≠ 64 then "bad-op" else flag (verifyV2 i fs l p r)
+    | _, _, _, _, _ => "bad-op"
+  | _ => "bad-op"
+
 /-- `sp-prove filehex index` → `<file root> <leaf (64 bytes, zero padded)> <proof>` -/
 def spProve : List String → String
   | [f, i] => match unhex f, i.toNat? with
@@ -51,6 +59,7 @@ def spOps : List (String × (List String → String)) := [
   ("sp-root2", spRoot2),
   ("sp-proofroot", spProofRoot),
   ("sp-verify1", spVerify1),
+  ("sp-verify2", spVerify2),
   ("sp-prove", spProve)]
 
 end Sia.Driver
